@@ -57,6 +57,11 @@ func init() {
 		nilEq := Eq(Eq(ha.Ref, IntC(0)), Eq(hb.Ref, IntC(0)))
 		return And(nilEq, c.seqEq(env, ha, hb))
 	}
+	intrinsics["time.Now"] = func(c *Ctx, st *State, in ssa.Instruction, args []Value) Value {
+		c.Assumed["time.Now() returns an arbitrary time value (ghost clock not modelled)"] = true
+		call := in.(ssa.CallInstruction)
+		return c.symbolic(st, call.Common().Signature().Results().At(0).Type(), "now")
+	}
 	intrinsics["math.Inf"] = func(c *Ctx, st *State, in ssa.Instruction, args []Value) Value {
 		if !c.FP {
 			unsupported("math.Inf in real mode")
